@@ -92,13 +92,14 @@ UnusedNumber(Bt) ==
   LET items == AllAlts(Bt)
   IN 1 + FoldLeft(LAMBDA acc, it : IF it.v > acc THEN it.v ELSE acc, 0, items)
 
-\* every corruption applicable at one node
-NodeCorruptions(e, node) ==
+\* every corruption applicable at one node; taus = the Python type tags to try (a subsequence
+\* of TauUniverse)
+NodeCorruptions(e, node, taus) ==
   LET Bt == Base(e, node.t)
-      wrong == Concat([j \in 1..Len(TauUniverse) |->
-                 LET nes == RejectedUnder(Bt.k, TauUniverse[j])
+      wrong == Concat([j \in 1..Len(taus) |->
+                 LET nes == RejectedUnder(Bt.k, taus[j])
                  IN IF nes = <<>> THEN <<>>
-                    ELSE <<Cor("type", node.pos, TauUniverse[j], nes, "", 0, NoValue, "")>>])
+                    ELSE <<Cor("type", node.pos, taus[j], nes, "", 0, NoValue, "")>>])
       special ==
         CASE Bt.k = "CHOICE" -> <<Cor("alt", node.pos, "", BothNe, "", 0, NoValue, "")>>
           [] Bt.k = "ENUM" -> <<Cor("enum", node.pos, "", BothNe, "", UnusedNumber(Bt), NoValue, "")>>
@@ -122,6 +123,7 @@ Applicable(e, T, v, c) ==
   /\ ReachesNode(e, T, v, c.pos)
   /\ LET Bt == Base(e, TypeAt(e, T, c.pos))
      IN CASE c.kind = "type" -> /\ c.nes # <<>>
+                                /\ \E j \in 1..Len(TauUniverse) : TauUniverse[j] = c.tau
                                 /\ \A j \in 1..Len(c.nes) : c.tau \notin Accepts(Bt.k, c.nes[j])
           [] c.kind = "alt" -> Bt.k = "CHOICE"
           [] c.kind = "enum" -> Bt.k = "ENUM" /\ \A j \in 1..Len(AllAlts(Bt)) : AllAlts(Bt)[j].v # c.num
@@ -152,6 +154,25 @@ PathRec(e, T, pos, bt, names) ==
          [] pos[1].s = "a" ->
               <<pos[1].n>> \o PathRec(e, AllAlts(T)[MemberIndex(AllAlts(T), pos[1].n)].t, Tail(pos), bt, names)
          [] pos[1].s = "i" -> PathRec(e, T.e, Tail(pos), bt, names)
+
+(* Named deviation of "never bytes".  DevAdditionErrorsSwallowed: the BER / DER /  *)
+(* PER / UPER / OER encoders of SEQUENCE and SET wrap the encoding of all          *)
+(* extension additions in  try: ... except EncodeError: pass  (meant for an        *)
+(* absent addition), so an error that only the codec detects -- a missing          *)
+(* mandatory member, an unknown ENUMERATED name -- inside an extension addition    *)
+(* is swallowed and bytes are returned without that addition.                      *)
+RECURSIVE InsideAddition(_, _, _)
+InsideAddition(e, T, pos) ==
+  pos # <<>> /\
+  LET Bt == Base(e, T)
+  IN CASE pos[1].s = "m" ->
+            LET ms == AllMembers(Bt)
+                j == MemberIndex(ms, pos[1].n)
+            IN j > Len(Bt.root) \/ InsideAddition(e, ms[j].t, Tail(pos))
+       [] pos[1].s = "a" -> InsideAddition(e, AllAlts(Bt)[MemberIndex(AllAlts(Bt), pos[1].n)].t, Tail(pos))
+       [] pos[1].s = "i" -> InsideAddition(e, Bt.e, Tail(pos))
+
+SwallowingCodecs == {"ber", "ber/ne", "der", "der/ne", "per", "per/ne", "uper", "uper/ne", "oer", "oer/ne"}
 
 \* names : abstract type name -> the name the type was compiled under
 DevPath(e, top, pos, names) == PathRec(e, e.types[top], pos, <<top>>, names)
